@@ -71,6 +71,19 @@ var jobTable = map[string]jobSet{
 			{Scenario: "size-product(c2s: 2 of {1,100,32768,32769,65535}; s2c: 1)",
 				Scenarios: sizeProduct([]int{1, 100, 32768, 32769, 65535}, 2, 1), Budgets: bs(B(0, 0))},
 			{Scenario: "e2e/c2s=1,100/s2c=32768", Budgets: bs(B(1, 0)), Split: 1},
+			// the client application hangs up in the middle of the server's
+			// answer (10 bytes / 40000 bytes into a 64 KiB record); the next
+			// connection of the same NoiseGrpcConn must start clean
+			{Scenario: "e2e/c2s=100/s2c=65535/abandon=10", Budgets: bs(B(0, 0))},
+			{Scenario: "e2e/c2s=100/s2c=65535,100/abandon=40000", Budgets: bs(B(0, 0))},
+			// a relay restart (every mailbox lost) at any idle point
+			{Scenario: "e2e/c2s=65535/s2c=1,100/wipe", Budgets: bs(B(0, 1)), Split: 1},
+			// the relay unreachable for 30 s (all calls fail, open streams
+			// break), at any idle point
+			{Scenario: "e2e/c2s=65535/s2c=1,100/down=30s", Budgets: bs(B(0, 1)), Split: 1},
+			// 30 s in which the relay loses everything, and a client that
+			// does not reconnect: the server must not be left waiting for ever
+			{Scenario: "e2e/c2s=65535/s2c=1,100/outage=30s/noretry", Budgets: bs(B(0, 1)), Split: 1},
 			{Scenario: "e2e/c2s=65535/s2c=1,100/drop/kill", Budgets: bs(B(0, 2)), Split: 1},
 			{Scenario: "e2e/c2s=100,32768/s2c=65535/closer=server/drop/kill", Budgets: bs(B(0, 1)), Split: 1},
 		},
@@ -82,6 +95,14 @@ var jobTable = map[string]jobSet{
 			{Scenario: "e2e/c2s=65535/s2c=1,100/drop/kill", Budgets: bs(B(2, 1), B(1, 2), B(0, 3)), Filter: "mailbox", Split: 2},
 			{Scenario: "e2e/c2s=100,32768/s2c=65535/closer=server/drop/kill", Budgets: bs(B(1, 1), B(0, 2)), Split: 2},
 			{Scenario: "e2e/c2s=1/s2c=1/drop/kill/v=0", Budgets: bs(B(1, 1)), Split: 1},
+			{Scenario: "e2e/c2s=100/s2c=65535/abandon=10", Budgets: bs(B(2, 0)), Filter: "mailbox", Split: 2},
+			{Scenario: "e2e/c2s=100/s2c=65535/abandon=10/kill", Budgets: bs(B(0, 1)), Split: 1},
+			{Scenario: "e2e/c2s=65535/s2c=1,100/wipe/kill", Budgets: bs(B(1, 1), B(0, 2)), Filter: "mailbox", Split: 1},
+			{Scenario: "e2e/c2s=65535/s2c=1,100/down=30s/kill", Budgets: bs(B(1, 1), B(0, 2)), Filter: "mailbox", Split: 1},
+			{Scenario: "e2e/c2s=65535/s2c=1,100/outage=30s/noretry", Budgets: bs(B(1, 1)), Filter: "mailbox", Split: 1},
+			{Scenario: "e2e/c2s=65535/s2c=1,100/outage=12s", Budgets: bs(B(0, 1)), Split: 1},
+			{Scenario: "e2e/c2s=100/s2c=100/down=8s/noretry", Budgets: bs(B(0, 1)), Split: 1},
+			{Scenario: "e2e/c2s=100/s2c=65535,100/abandon=40000", Budgets: bs(B(1, 0)), Filter: "mailbox", Split: 1},
 		},
 		quickS: 300, thoroughS: 1800,
 	},
@@ -91,12 +112,27 @@ var jobTable = map[string]jobSet{
 			{Scenario: "sess/rounds=2/closer=server", Budgets: bs(B(1, 0)), Filter: "mailbox", Split: 1},
 			{Scenario: "sess/rounds=3/closer=server/v=1", Budgets: bs(B(1, 0)), Filter: "mailbox", Split: 1},
 			{Scenario: "sess/rounds=2/kill", Budgets: bs(B(0, 1)), Split: 1},
+			// a relay restart (every mailbox lost): both sides must find
+			// each other again (version 1: the rendezvous does not move)
+			{Scenario: "sess/rounds=2/v=1/wipe", Budgets: bs(B(0, 1)), Split: 1},
+			// the relay unreachable for 30 s at any idle point
+			{Scenario: "sess/rounds=2/v=1/down=30s", Budgets: bs(B(0, 1)), Split: 1},
+			// a stream end killed while the server is the one that hangs up
+			{Scenario: "sess/rounds=2/closer=server/kill", Budgets: bs(B(0, 1)), Split: 1},
+			// gRPC's connect timeout: every Dial has a 20 s context while the
+			// application keeps each connection for 30 s
+			{Scenario: "sess/rounds=2/hold=30s/dialto=20s", Budgets: bs(B(1, 0)), Filter: "mailbox", Split: 1},
 		},
 		thorough: []Job{
 			{Scenario: "sess/rounds=2/intruder", Budgets: bs(B(2, 0)), Filter: "mailbox", Split: 2},
 			{Scenario: "sess/rounds=2/closer=server", Budgets: bs(B(2, 0)), Filter: "mailbox", Split: 2},
 			{Scenario: "sess/rounds=3/closer=server/v=1", Budgets: bs(B(1, 0)), Split: 1},
 			{Scenario: "sess/rounds=2/kill/drop", Budgets: bs(B(1, 1), B(0, 2)), Filter: "mailbox", Split: 2},
+			{Scenario: "sess/rounds=3/closer=server/v=1/wipe/kill", Budgets: bs(B(1, 1), B(0, 2)), Filter: "mailbox", Split: 1},
+			{Scenario: "sess/rounds=2/v=1/down=30s/kill", Budgets: bs(B(1, 1), B(0, 2)), Filter: "mailbox", Split: 1},
+			{Scenario: "sess/rounds=2/closer=server/v=1/down=8s", Budgets: bs(B(1, 1)), Filter: "mailbox", Split: 1},
+			{Scenario: "sess/rounds=2/closer=server/kill/drop", Budgets: bs(B(0, 2)), Split: 1},
+			{Scenario: "sess/rounds=3/hold=30s/dialto=20s/closer=server", Budgets: bs(B(1, 0)), Filter: "mailbox", Split: 1},
 		},
 		quickS: 300, thoroughS: 1800,
 	},
